@@ -98,3 +98,7 @@ Inductive consistent {M : Type} (msgs : N -> list M) : list label -> pending M -
 (* the messages of group g, in publication order (Event.Spec.project at M = bytes * bytes) *)
 Definition gproj {M} (g : N) (ps : list (N * M)) : list M :=
   map snd (List.filter (fun m => N.eqb (fst m) g) ps).
+
+(* no callback of group g is executing in state s *)
+Definition idle (s : st) (g : N) : Prop :=
+  forall k w i c, workers s !! k = Some (WRun w i c) -> gid_of s w <> Some g.
